@@ -269,6 +269,18 @@ def register(reg):
                  raises=dict(WALK_ERR, IOError=None, OSError=None), serves=['C01', 'C05', 'C06'],
                  note='the coder state is created with the message\'s own compression flag and subset count; compressed: ONE walk; '
                       'uncompressed: per subset a context switch (fresh registers) and one walk'))
+    # C07: the bitmap is the list of the last n_031031 decoded values (of subset 0 when compressed: all subsets carry the same bitmap)
+    from contracts.coder import define_bitmap_requires, define_bitmap_modifies, define_bitmap_ensures
+    VL = 'ite(state.is_compressed, select(state.decoded_values_all_subsets, 0), state.decoded_values)'
+    NB = 'old(state.n_031031)'
+    # Python: l[-n:] is the whole list for n == 0 or n > len, the last n entries for 0 < n <= len (and l[|n|:] for a negative n)
+    COUNT = 'ite(%s == 0 or %s > len(%s), len(%s), ite(%s > 0, %s, max(0, len(%s) + %s)))' % (NB, NB, VL, VL, NB, NB, VL, NB)
+    add(Contract(M + 'Decoder.define_bitmap', {'self': DEC, 'state': S, 'reuse': BOOL}, returns=ListT(VAL),
+                 requires=define_bitmap_requires() + ['select(state.decoded_values_all_subsets, 0) != None'],
+                 modifies=define_bitmap_modifies(), allocates=['state.next_bitmapped_descriptor.lst', 'state.next_bitmapped_descriptor.pos'],
+                 ensures=define_bitmap_ensures((VL, 'len(%s) - len(result)' % VL, COUNT)),
+                 raises={'PyBufrKitError': None}, serves=['C07'],
+                 note='decoder: bitmap = the last n_031031 values decoded; kept in state.bitmap iff it is defined for reuse'))
     register_sections(reg)
 
 
